@@ -50,6 +50,8 @@ func segText(class string, variant int) string {
 		return []string{`c\..\d`, `..\..\w`}[variant%2]
 	case "tdd":
 		return "..."
+	case "pdd":
+		return []string{" ..", ".. ", "\t..", " .. "}[variant%4]
 	case "long":
 		return strings.Repeat("p/", 520) + "q" // 1041 bytes of short nested names
 	}
@@ -132,6 +134,7 @@ func PathsJail(args []string) {
 	shards := fs.Int("shards", 1, "shards")
 	variants := fs.Int("variants", 1, "concrete spellings per case")
 	sample := fs.Int("sample", 0, "run only every k-th reached case (0/1 = all)")
+	deep := fs.Bool("deep", false, "with -sample: always run the cases that climb at least two levels after a harmless first segment")
 	fs.Parse(args)
 	rows, err := loadRows[pathRow](*edges)
 	if err != nil {
@@ -152,7 +155,15 @@ func PathsJail(args []string) {
 				continue
 			}
 			if *sample > 1 && (n / *shards)%*sample != 0 {
-				continue
+				dds := 0
+				for _, sg := range r.Segs {
+					if sg == "dd" {
+						dds++
+					}
+				}
+				if !(*deep && dds >= 2 && len(r.Segs) > 0 && r.Segs[0] != "dd" && r.Segs[0] != "bs") {
+					continue
+				}
 			}
 			caseDir := filepath.Join(jail, fmt.Sprintf("k%d", n))
 			// the output directory sits 4 levels deep so that <= 3 ".." stay inside the case directory
